@@ -229,6 +229,11 @@ func (en *Engine) assumeGlobalAxioms(f *Frame, ctx *SpecCtx) {
 		if ax.Lemma {
 			continue
 		}
+		// "name@pkg.func": a defining axiom that is unfolded only in the proof of that function
+		// (recursive definitions are matching loops: elsewhere the symbol stays uninterpreted)
+		if j := strings.Index(ax.Name, "@"); j >= 0 && !strings.HasPrefix(f.vc.fn, ax.Name[j+1:]) {
+			continue
+		}
 		c := &SpecCtx{f: f, heap: f.entry, old: f.entry, binds: map[string]Val{}, quiet: false}
 		if sp, ok := en.pkgs[ax.Pkg]; ok {
 			c.pkg = sp.Pkg
